@@ -45,6 +45,8 @@ package dbft
 //@ pure Block.PrevHash
 //@ pure Block.MerkleRoot
 //@ pure Block.Index
+//@ pure Block.Signature
+//@ pure PreBlock.Data
 //@ pure Block.Verify
 //@ pure PreBlock.Verify
 //@ pure Config.WatchOnly
@@ -67,6 +69,9 @@ package dbft
 //@ ghost gTimerArms Int
 //@ ghost gClock Int
 //@ ghost gPool RefSeq Transaction
+//@ ghost gVerified Ref
+//@ ghost gTipHeight Int
+//@ ghost gTipHash Ref
 
 // ---- predicates ----
 
@@ -177,14 +182,11 @@ package dbft
 //@   params v, reason, ts
 //@   ensures result != nil && result.NewViewNumber() == v
 //@ extern Config.NewPrepareRequest
-//@   ensures result != nil
+//@   params ts, nonce, hashes
+//@   ensures result != nil && result.Timestamp() == ts && result.Nonce() == nonce && sametable(result.TransactionHashes(), hashes)
 //@ extern Config.NewPrepareResponse
 //@   params h
 //@   ensures result != nil && result.PreparationHash() == h
-//@ extern Config.NewCommit
-//@   ensures result != nil
-//@ extern Config.NewPreCommit
-//@   ensures result != nil
 //@ extern Config.NewRecoveryRequest
 //@   ensures result != nil
 //@ extern Config.NewRecoveryMessage
@@ -198,6 +200,7 @@ package dbft
 //@   ensures -1 <= result0 && result0 < len(validators)
 // A8: the ledger height is below 2^32-1, so that the next height is representable.
 //@ extern Config.CurrentHeight
+//@   ghost gTipHeight = result
 //@   ensures result < 4294967295
 // A8: block times are positive, bounded (minimum <= 68 s, maximum <= 18 min) and the maximum is not below the minimum.
 //@ extern Config.TimePerBlock
@@ -209,26 +212,79 @@ package dbft
 //@   ensures forall(k, 0, len(result), result[k] != nil)
 //@ extern Config.NewBlockFromContext
 //@   ensures result != nil
+// the verification callbacks: remember which block / pre-block object was accepted
+//@ extern Config.VerifyBlock
+//@   params b
+//@   ghost gVerified = ite(result, b, gVerified)
+//@ extern Config.VerifyPreBlock
+//@   params b
+//@   ghost gVerified = ite(result, b, gVerified)
+//@ extern Config.CurrentBlockHash
+//@   ghost gTipHash = result
 //@ extern Config.NewPreBlockFromContext
 //@   ensures result != nil
 
 // ---- umbrella ----
 
+//@ pred rsor() = self.PreparationPayloads[self.PrimaryIndex] != nil
+//@ pred notWatchOnly() = self.MyIndex >= 0 && !self.Config.WatchOnly()
+//@ pred hasAllTx() = len(self.TransactionHashes) == len(self.Transactions)
+//@ pred canMakeHeader() = rsor() && (!amev() || self.preBlockProcessed)
+//@ pred canMakePreBlock() = amev() && rsor() && hasAllTx()
+
+// C10: an undecided validator has a timer armed for exactly its current height and view (duration >= 0 under A-VIEW).
+//@ pred timerOK() = self.Config.WatchOnly() || self.MyIndex < 0 || self.blockProcessed
+//@      || (gTimerH == self.BlockIndex && gTimerV == self.ViewNumber && gTimerD >= 0)
+//@ pred timerKept() = implies(aview() && (old(timerOK()) || self.ViewNumber != old(self.ViewNumber)), timerOK()) && gTimerArms >= old(gTimerArms)
+//@ pred sameHeight() = unchanged(self.Validators) && self.BlockIndex == old(self.BlockIndex) && self.MyIndex == old(self.MyIndex)
+
+// ---- quorum evidence (C02, C04, C07) ----
+//@ pred curPrep(i) = self.PreparationPayloads[i] != nil && self.PreparationPayloads[i].ViewNumber() == self.ViewNumber
+//@ pred curC(i) = self.CommitPayloads[i] != nil && self.CommitPayloads[i].ViewNumber() == self.ViewNumber
+//@ pred curP(i) = self.PreCommitPayloads[i] != nil && self.PreCommitPayloads[i].ViewNumber() == self.ViewNumber
+//@ pred prepCount() = count(i, 0, NN(), curPrep(i))
+//@ pred preCommitCount() = count(i, 0, NN(), curP(i))
+//@ pred commitCount() = count(i, 0, NN(), curC(i))
+//@ pred cvCount(v) = count(i, 0, NN(), self.ChangeViewPayloads[i] != nil && self.ChangeViewPayloads[i].GetChangeView().NewViewNumber() >= v)
+// PREP: once the proposal is known, every stored response names its hash.
+//@ pred prep() = implies(rsor(), forall(i, 0, NN(), implies(self.PreparationPayloads[i] != nil && i != self.PrimaryIndex
+//@        && self.PreparationPayloads[i].Type() == PrepareResponseType, self.PreparationPayloads[i].GetPrepareResponse().PreparationHash() == self.PreparationPayloads[self.PrimaryIndex].Hash())))
+// PROP: the proposal fields of the context are those of the stored proposal.
+//@ pred prop() = implies(rsor() && self.PreparationPayloads[self.PrimaryIndex].Type() == PrepareRequestType,
+//@        self.Timestamp == self.PreparationPayloads[self.PrimaryIndex].GetPrepareRequest().Timestamp()
+//@        && self.Nonce == self.PreparationPayloads[self.PrimaryIndex].GetPrepareRequest().Nonce()
+//@        && sametable(self.TransactionHashes, self.PreparationPayloads[self.PrimaryIndex].GetPrepareRequest().TransactionHashes()))
+// VERC / VERP: stored current-view commits (pre-commits) verify against the header (pre-block) once it exists,
+// and none is waiting unverified once the header (pre-block) can be built.
+//@ pred verC(i) = self.header.Verify(self.Validators[i], self.CommitPayloads[i].GetCommit().Signature()) == nil
+//@ pred verP(i) = self.preBlock.Verify(self.Validators[i], self.PreCommitPayloads[i].GetPreCommit().Data()) == nil
+//@ pred verc() = implies(self.header != nil, forall(i, 0, NN(), implies(curC(i), verC(i))))
+//@        && implies(canMakeHeader() && self.header == nil, forall(i, 0, NN(), !curC(i)))
+//@ pred verp() = implies(self.preBlock != nil, forall(i, 0, NN(), implies(curP(i), verP(i))))
+//@        && implies(canMakePreBlock() && self.preBlock == nil, forall(i, 0, NN(), !curP(i)))
+//@ pred tip() = self.BlockIndex == gTipHeight + 1 && self.PrevHash == gTipHash
+
+//@ bundle INV
+//@   ensures [C11] @wf wf()
+//@   ensures [C11] @slot slot()
+//@   ensures [C04] @prep prep()
+//@   ensures [C02,C15] @prop prop()
+//@   ensures [C02,C01] @verc verc()
+//@   ensures [C02,C07] @verp verp()
+//@   ensures [C02] @tip tip()
+
 //@ bundle U
-//@   requires wf() && slot()
-//@   ensures  [C11] @wf wf()
-//@   ensures  [C11] @slot slot()
+//@   requires wf() && slot() && prep() && prop() && verc() && verp() && tip()
+//@   use INV
 //@   ensures  @hist unchanged(self.Validators) && self.BlockIndex == old(self.BlockIndex) && self.ViewNumber >= old(self.ViewNumber) && self.MyIndex == old(self.MyIndex)
 //@   ensures  @arms gTimerArms >= old(gTimerArms)
 //@   ensures  @heap heapMono()
 //@   ensures  [C10] @timer implies(aview() && (old(timerOK()) || self.ViewNumber != old(self.ViewNumber)), timerOK())
 
-// C10: an undecided validator has a timer armed for exactly its current height and view (duration >= 0 under A-VIEW).
-//@ pred timerOK() = self.Config.WatchOnly() || self.MyIndex < 0 || self.blockProcessed
-//@      || (gTimerH == self.BlockIndex && gTimerV == self.ViewNumber && gTimerD >= 0)
-//@ pred rsor() = self.PreparationPayloads[self.PrimaryIndex] != nil
-//@ pred notWatchOnly() = self.MyIndex >= 0 && !self.Config.WatchOnly()
-//@ pred hasAllTx() = len(self.TransactionHashes) == len(self.Transactions)
+// loop invariant shared by the loops that call back into OnReceive
+//@ bundle LOOPU
+//@   use INV
+//@   ensures sameHeight() && self.ViewNumber >= old(self.ViewNumber) && heapMono() && timerKept()
 
 // ---- more externs ----
 
@@ -243,6 +299,17 @@ package dbft
 //@   ensures forall(k, 0, len(result), result[k] != nil)
 //@ extern RecoveryMessage.GetCommits
 //@   ensures forall(k, 0, len(result), result[k] != nil)
+// A6-lite: a block signed with this node's key verifies under this node's listed public key (same for pre-commit data).
+//@ extern Block.Sign
+//@   ensures implies(result == nil && self.MyIndex >= 0, recv.Verify(self.Validators[self.MyIndex], recv.Signature()) == nil)
+//@ extern PreBlock.SetData
+//@   ensures implies(result == nil && self.MyIndex >= 0, recv.Verify(self.Validators[self.MyIndex], recv.Data()) == nil)
+//@ extern Config.NewCommit
+//@   params sig
+//@   ensures result != nil && sametable(result.Signature(), sig)
+//@ extern Config.NewPreCommit
+//@   params data
+//@   ensures result != nil && sametable(result.Data(), data)
 
 // ---- context.go ----
 
@@ -262,14 +329,19 @@ package dbft
 //@   ensures len(result) == n && forall(k, 0, n, result[k] == nil)
 //@   modifies nothing
 
+//@ func (*Context).isAntiMEVExtensionEnabled
+//@   requires cfgOK()
+//@   ensures [C07] @enabled result == amev()
+//@   modifies nothing
+
 //@ func (*Context).reset
-//@   requires base() && implies(view > 0, wf() && slot())
+//@   requires base() && implies(view > 0, wf() && slot() && tip())
 //@   requires ts + self.TimestampIncrement <= 18446744073709551615
-//@   ensures [C11] @wf wf()
-//@   ensures [C11] @slot slot()
+//@   use INV
 //@   ensures self.ViewNumber == view
-//@   ensures implies(view > 0, unchanged(self.Validators) && self.BlockIndex == old(self.BlockIndex) && self.MyIndex == old(self.MyIndex))
-//@   modifies Context.*, heap HeightView.*
+//@   ensures implies(view > 0, sameHeight() && unchanged(self.CommitPayloads, self.PreCommitPayloads, self.preBlockProcessed, self.blockProcessed))
+//@   ensures forall(i, 0, NN(), self.PreparationPayloads[i] == nil && self.ChangeViewPayloads[i] == nil) && implies(view == 0, forall(i, 0, NN(), self.CommitPayloads[i] == nil && self.PreCommitPayloads[i] == nil))
+//@   modifies Context.*, heap HeightView.*, gTipHeight, gTipHash
 //@   loop 1: invariant len(c.LastChangeViewPayloads) == NN() && len(c.ChangeViewPayloads) == NN() && unchanged(c.ChangeViewPayloads, c.Validators)
 
 //@ pred truncClock() = (gClock / self.TimestampIncrement) * self.TimestampIncrement
@@ -295,21 +367,32 @@ package dbft
 //@ writers [C15] Context.Timestamp : (*Context).Fill, (*DBFT).onPrepareRequest
 //@ writers [C15] Context.Nonce : (*Context).Fill, (*DBFT).onPrepareRequest
 //@ writers [C15] Context.TransactionHashes : (*Context).Fill, (*DBFT).onPrepareRequest, (*Context).reset
+// C02: the ledger position is read only at (re)initialisation.
+//@ writers [C02] Context.BlockIndex : (*Context).reset
+//@ writers [C02] Context.PrevHash : (*Context).reset
+//@ writers [C02,C06] Context.PrimaryIndex : (*Context).reset
+//@ writers [C02] Context.Validators : (*Context).reset
 
-//@ pred canMakeHeader() = rsor() && (!amev() || self.preBlockProcessed)
 //@ func (*Context).CreateBlock
 //@   requires wf() && slot()
 //@   ensures result == c.block
 //@   ensures implies(old(canMakeHeader()) || old(c.block) != nil, result != nil)
+//@   ensures implies(old(c.block) != nil, unchanged(c.block, c.header))
+//@   ensures implies(old(c.header) != nil, c.header == old(c.header))
+//@   ensures implies(c.header != nil, old(canMakeHeader()))
 //@   ensures wf() && slot()
-//@   loop 1: invariant len(txx) == len(c.TransactionHashes) && c.block != nil
+//@   loop 1: invariant len(txx) == len(c.TransactionHashes) && c.block != nil && forall(j, 0, i, txx[j] == c.Transactions[c.TransactionHashes[j]])
+//@   at call c.block.SetTransactions: assert [C02] @blockTxs len(arg0) == len(c.TransactionHashes) && forall(j, 0, len(arg0), arg0[j] == c.Transactions[c.TransactionHashes[j]])
 //@   modifies Context.block, Context.header
 //@ func (*Context).CreatePreBlock
 //@   requires wf() && slot() && amev()
 //@   ensures result == c.preBlock
 //@   ensures implies(old(rsor()) || old(c.preBlock) != nil, result != nil)
+//@   ensures implies(old(c.preBlock) != nil, unchanged(c.preBlock, c.preHeader))
+//@   ensures implies(c.preBlock != nil, old(rsor()))
 //@   ensures wf() && slot()
-//@   loop 1: invariant len(txx) == len(c.TransactionHashes) && c.preBlock != nil
+//@   loop 1: invariant len(txx) == len(c.TransactionHashes) && c.preBlock != nil && forall(j, 0, i, txx[j] == c.Transactions[c.TransactionHashes[j]])
+//@   at call c.preBlock.SetTransactions: assert [C02] @preBlockTxs len(arg0) == len(c.TransactionHashes) && forall(j, 0, len(arg0), arg0[j] == c.Transactions[c.TransactionHashes[j]])
 //@   modifies Context.preBlock, Context.preHeader
 //@ func (*Context).MakeHeader
 //@   requires wf() && slot()
@@ -317,7 +400,9 @@ package dbft
 //@   ensures implies(old(canMakeHeader()) || old(c.header) != nil, result != nil)
 //@   ensures implies(result != nil, old(canMakeHeader()))
 //@   ensures implies(old(c.header) != nil, result == old(c.header))
+//@   at call c.Config.NewBlockFromContext: assert [C07] @afterPreBlock implies(amev(), c.preBlockProcessed)
 //@   modifies Context.header
+//@ callers [C07,C02] Config.NewBlockFromContext : (*Context).MakeHeader
 //@ func (*Context).MakePreHeader
 //@   requires wf() && slot() && amev()
 //@   ensures result == c.preHeader
@@ -332,13 +417,15 @@ package dbft
 //@   requires wf() && msg != nil
 //@   requires [C13] @silent notWatchOnly()
 //@   requires msg.ValidatorIndex() == self.MyIndex
+//@   ensures gLastBcast == msg && gBroadcasts == old(gBroadcasts) + 1
 //@   modifies gBroadcasts, gLastBcast
+//@ callers [C13,C03] Config.Broadcast : (*DBFT).broadcast
 
 //@ func (*DBFT).sendPrepareRequest
 //@   use U
 //@   ensures [C10] @arms gTimerArms > old(gTimerArms)
 //@   requires [C13] @silent notWatchOnly()
-//@   requires self.MyIndex == self.PrimaryIndex
+//@   requires self.MyIndex == self.PrimaryIndex && !rsor()
 //@   wraps d.ViewNumber+1 unless aview()
 //@   wraps d.timePerBlock<<(d.ViewNumber+1) unless aview()
 //@ func (*DBFT).sendChangeView
@@ -349,25 +436,38 @@ package dbft
 //@   wraps newView+1 unless aview()
 //@   wraps d.timePerBlock<<(newView+1) unless aview()
 //@ func (*DBFT).sendPrepareResponse
-//@   requires wf() && slot()
-//@   ensures [C11] @wf wf()
-//@   ensures [C11] @slot slot()
+//@   requires wf() && slot() && prep()
 //@   requires [C13] @silent notWatchOnly()
 //@   requires rsor()
+//@   requires self.MyIndex != self.PrimaryIndex
+//@   requires [C04] @evidence hasAllTx() && gVerified != nil && (gVerified == self.block || gVerified == self.preBlock)
+//@   ensures [C11] @wf wf()
+//@   ensures [C11] @slot slot()
+//@   ensures [C04] @prep prep()
+//@   ensures [C04] @names self.PreparationPayloads[self.MyIndex] != nil && gLastBcast == self.PreparationPayloads[self.MyIndex]
+//@        && self.PreparationPayloads[self.MyIndex].GetPrepareResponse().PreparationHash() == self.PreparationPayloads[self.PrimaryIndex].Hash()
 //@   modifies Context.PreparationPayloads, gBroadcasts, gLastBcast
 //@ func (*DBFT).sendPreCommit
-//@   requires wf() && slot()
+//@   requires wf() && slot() && verp()
+//@   requires [C13] @silent notWatchOnly()
+//@   requires [C07] @enabled amev()
+//@   requires [C04] @evidence rsor() && hasAllTx() && prepCount() >= specM(NN()) && prep()
 //@   ensures [C11] @wf wf()
 //@   ensures [C11] @slot slot()
-//@   requires [C13] @silent notWatchOnly()
-//@   requires amev()
+//@   ensures [C02,C07] @verp verp()
 //@   modifies Context.PreCommitPayloads, Context.preBlock, Context.preHeader, gBroadcasts, gLastBcast
 //@ func (*DBFT).sendCommit
-//@   requires wf() && slot()
+//@   requires wf() && slot() && verc()
+//@   requires [C13] @silent notWatchOnly()
+//@   requires [C04] @evidence implies(!amev(), rsor() && hasAllTx() && prepCount() >= specM(NN()) && prep())
+//@   requires [C07] @phase implies(amev(), self.PreCommitPayloads[self.MyIndex] != nil && self.preBlockProcessed && preCommitCount() >= specM(NN()))
 //@   ensures [C11] @wf wf()
 //@   ensures [C11] @slot slot()
-//@   requires [C13] @silent notWatchOnly()
+//@   ensures [C02,C01] @verc verc()
 //@   modifies Context.CommitPayloads, Context.header, gBroadcasts, gLastBcast
+//@ func (*Context).makeCommit
+//@   inline
+//@   at call b.Sign: assert [C07] @afterPreBlock implies(amev(), c.preBlockProcessed)
 //@ func (*DBFT).sendRecoveryRequest
 //@   requires wf() && slot()
 //@   ensures [C11] @wf wf()
@@ -387,18 +487,24 @@ package dbft
 //@ func (*DBFT).checkPrepare
 //@   use U
 //@   requires [C13] @silent notWatchOnly()
-//@   loop 1: invariant 0 <= count && count <= idx && implies(hasRequest, rsor())
+//@   loop 1: invariant 0 <= count && count <= idx && implies(hasRequest, rsor()) && count == count(j, 0, idx, curPrep(j))
 //@ func (*DBFT).checkPreCommit
 //@   use U
-//@   requires amev() && rsor()
-//@   loop 1: invariant 0 <= count && count <= idx
+//@   requires [C07] @enabled amev()
+//@   requires rsor()
+//@   loop 1: invariant 0 <= count && count <= idx && count == count(j, 0, idx, curP(j))
+//@   at call d.ProcessPreBlock: assert [C07,C02] @certificate !self.preBlockProcessed && preCommitCount() >= specM(NN()) && hasAllTx() && arg0 == self.preBlock && arg0 != nil && verp()
+//@ callers [C07] Config.ProcessPreBlock : (*DBFT).checkPreCommit
+//@ writers [C07] Context.preBlockProcessed : (*DBFT).checkPreCommit, (*Context).reset
 //@ func (*DBFT).checkCommit
 //@   use U
 //@   requires canMakeHeader()
-//@   loop 1: invariant 0 <= count && count <= idx
+//@   loop 1: invariant 0 <= count && count <= idx && count == count(j, 0, idx, curC(j))
+//@   at call d.ProcessBlock: assert [C02,C01] @certificate commitCount() >= specM(NN()) && hasAllTx() && arg0 == self.header && arg0 != nil && verc() && prop() && tip()
+//@ callers [C02,C05] Config.ProcessBlock : (*DBFT).checkCommit
 //@ func (*DBFT).checkChangeView
 //@   use U
-//@   loop 1: invariant 0 <= count && count <= idx
+//@   loop 1: invariant 0 <= count && count <= idx && count == count(j, 0, idx, self.ChangeViewPayloads[j] != nil && self.ChangeViewPayloads[j].GetChangeView().NewViewNumber() >= view)
 
 // ---- dbft.go ----
 
@@ -408,32 +514,34 @@ package dbft
 //@ func (*DBFT).Start
 //@   ensures [C10] @timer implies(aview(), timerOK())
 //@   requires cfgOK() && 0 <= self.rttEstimates.idx && self.rttEstimates.idx < 70
+//@   requires [C03] @noProposalYet true
 //@   requires self.lastBlockTime == tzero() && self.prepareSentTime == tzero()
 //@   requires ts + self.TimestampIncrement <= 18446744073709551615
-//@   ensures [C11] @wf wf()
-//@   ensures [C11] @slot slot()
+//@   use INV
 //@ func (*DBFT).Reset
 //@   ensures [C10] @timer implies(aview(), timerOK())
 //@   requires base()
 //@   requires ts + self.TimestampIncrement <= 18446744073709551615
-//@   ensures [C11] @wf wf()
-//@   ensures [C11] @slot slot()
-//@ pred timerKept() = implies(aview() && (old(timerOK()) || self.ViewNumber != old(self.ViewNumber)), timerOK()) && gTimerArms >= old(gTimerArms)
-//@ pred sameHeight() = unchanged(self.Validators) && self.BlockIndex == old(self.BlockIndex) && self.MyIndex == old(self.MyIndex)
+//@   use INV
 //@ func (*DBFT).initializeConsensus
-//@   requires base() && implies(view > 0, wf() && slot() && view > self.ViewNumber)
+//@   requires base() && implies(view > 0, wf() && slot() && tip() && view > self.ViewNumber)
+//@   requires [C04] @viewEvidence implies(view > 0, cvCount(view) >= specM(NN()))
 //@   requires ts + self.TimestampIncrement <= 18446744073709551615
-//@   ensures [C11] @wf wf()
-//@   ensures [C11] @slot slot()
+//@   use INV
 //@   ensures self.ViewNumber >= view
 //@   ensures implies(view > 0, sameHeight())
 //@   ensures @heap heapMono()
 //@   ensures [C10] @timer implies(aview(), timerOK())
 //@   ensures @arms gTimerArms >= old(gTimerArms)
-//@   loop 1: invariant wf() && slot() && self.ViewNumber >= view && implies(view > 0, sameHeight()) && heapMono() && inboxOK(msgs) && gTimerArms >= old(gTimerArms)
-//@   loop 2: invariant wf() && slot() && self.ViewNumber >= view && implies(view > 0, sameHeight()) && heapMono() && inboxOK(msgs) && gTimerArms >= old(gTimerArms)
-//@   loop 3: invariant wf() && slot() && self.ViewNumber >= view && implies(view > 0, sameHeight()) && heapMono() && inboxOK(msgs) && gTimerArms >= old(gTimerArms)
-//@   loop 4: invariant wf() && slot() && self.ViewNumber >= view && implies(view > 0, sameHeight()) && heapMono() && inboxOK(msgs) && gTimerArms >= old(gTimerArms)
+//@   ensures [C03] @freshStart implies(old(forall(h, !has(self.cache.mail, h))), forall(i, 0, NN(), self.PreparationPayloads[i] == nil && self.CommitPayloads[i] == nil && self.PreCommitPayloads[i] == nil) || view > 0)
+//@   loop 1: use INV
+//@   loop 1: invariant self.ViewNumber >= view && implies(view > 0, sameHeight()) && heapMono() && inboxOK(msgs) && gTimerArms >= old(gTimerArms)
+//@   loop 2: use INV
+//@   loop 2: invariant self.ViewNumber >= view && implies(view > 0, sameHeight()) && heapMono() && inboxOK(msgs) && gTimerArms >= old(gTimerArms)
+//@   loop 3: use INV
+//@   loop 3: invariant self.ViewNumber >= view && implies(view > 0, sameHeight()) && heapMono() && inboxOK(msgs) && gTimerArms >= old(gTimerArms)
+//@   loop 4: use INV
+//@   loop 4: invariant self.ViewNumber >= view && implies(view > 0, sameHeight()) && heapMono() && inboxOK(msgs) && gTimerArms >= old(gTimerArms)
 //@   wraps d.ViewNumber+1 unless aview()
 //@   wraps d.timePerBlock<<(d.ViewNumber+1) unless aview()
 //@   wraps timeout-diff unless aview()
@@ -456,6 +564,8 @@ package dbft
 //@ func (*DBFT).onPrepareRequest
 //@   use U
 //@   requires admitted(msg) && msg.Type() == PrepareRequestType && msg.ViewNumber() <= self.ViewNumber
+// A7 (honest identity): a proposal carrying this node's own index was made by this node, hence is already stored.
+//@   assume @A7 msg.ValidatorIndex() != self.MyIndex || rsor()
 //@ func (*DBFT).onPrepareResponse
 //@   use U
 //@   requires admitted(msg) && msg.Type() == PrepareResponseType && msg.ViewNumber() <= self.ViewNumber
@@ -464,7 +574,8 @@ package dbft
 //@   requires admitted(msg) && msg.Type() == ChangeViewType
 //@ func (*DBFT).onPreCommit
 //@   use U
-//@   requires admitted(msg) && msg.Type() == PreCommitType && msg.ViewNumber() <= self.ViewNumber && amev()
+//@   requires admitted(msg) && msg.Type() == PreCommitType && msg.ViewNumber() <= self.ViewNumber
+//@   requires [C07] @enabled amev()
 //@ func (*DBFT).onCommit
 //@   use U
 //@   requires admitted(msg) && msg.Type() == CommitType && msg.ViewNumber() <= self.ViewNumber
@@ -474,10 +585,14 @@ package dbft
 //@ func (*DBFT).onRecoveryMessage
 //@   use U
 //@   requires admitted(msg) && msg.Type() == RecoveryMessageType
-//@   loop 1: invariant wf() && slot() && sameHeight() && self.ViewNumber >= old(self.ViewNumber) && 0 <= validChViews && validChViews <= idx && heapMono() && timerKept()
-//@   loop 2: invariant wf() && slot() && sameHeight() && self.ViewNumber >= old(self.ViewNumber) && 0 <= validPrepResp && validPrepResp <= idx && heapMono() && timerKept()
-//@   loop 3: invariant wf() && slot() && sameHeight() && self.ViewNumber >= old(self.ViewNumber) && 0 <= validPreCommits && validPreCommits <= idx && heapMono() && timerKept()
-//@   loop 4: invariant wf() && slot() && sameHeight() && self.ViewNumber >= old(self.ViewNumber) && 0 <= validCommits && validCommits <= idx && heapMono() && timerKept()
+//@   loop 1: use LOOPU
+//@   loop 1: invariant 0 <= validChViews && validChViews <= idx
+//@   loop 2: use LOOPU
+//@   loop 2: invariant 0 <= validPrepResp && validPrepResp <= idx
+//@   loop 3: use LOOPU
+//@   loop 3: invariant 0 <= validPreCommits && validPreCommits <= idx
+//@   loop 4: use LOOPU
+//@   loop 4: invariant 0 <= validCommits && validCommits <= idx
 //@ func (*DBFT).processMissingTx
 //@   requires wf()
 //@   loop 1: invariant !isnil(self.Transactions)
@@ -485,22 +600,35 @@ package dbft
 //@   modifies Context.MissingTransactions, Context.Transactions
 //@ func (*DBFT).createAndCheckBlock
 //@   use U
-//@   requires rsor()
-//@   ensures implies(result, unchanged(self.PreparationPayloads, self.PrimaryIndex, self.ViewNumber, self.TransactionHashes, self.Transactions))
+//@   requires rsor() && hasAllTx()
+//@   ensures implies(result, unchanged(self.PreparationPayloads, self.PrimaryIndex, self.ViewNumber, self.TransactionHashes, self.Transactions, self.CommitPayloads, self.PreCommitPayloads))
+//@   ensures [C04] @blockAccepted implies(result, gVerified != nil && (gVerified == self.block || gVerified == self.preBlock))
 //@ func (*DBFT).updateExistingPayloads
-//@   requires wf() && slot() && msg != nil && !rsor()
-//@   loop 1: invariant wf() && slot() && !rsor()
-//@   ensures wf() && slot()
+//@   requires wf() && slot() && msg != nil && !rsor() && verc() && verp()
+//@   loop 1: invariant wf() && slot() && !rsor() && verc() && verp()
+//@   loop 1: invariant forall(j, 0, idx, implies(self.PreparationPayloads[j] != nil && self.PreparationPayloads[j].Type() == PrepareResponseType, self.PreparationPayloads[j].GetPrepareResponse().PreparationHash() == msg.Hash()))
+//@   ensures wf() && slot() && !rsor() && verc() && verp()
+//@   ensures [C04] @filtered forall(j, 0, NN(), implies(self.PreparationPayloads[j] != nil && self.PreparationPayloads[j].Type() == PrepareResponseType, self.PreparationPayloads[j].GetPrepareResponse().PreparationHash() == msg.Hash()))
+// "it validates payloads we may have received before PrepareRequest": once it returns, no early commit (pre-commit) of the current view is left unverified.
+//@   ensures [C02,C01] @earlyCommitsVerified implies(!amev(), self.header != nil || forall(i, 0, NN(), !curC(i)))
+//@   ensures [C02,C07] @earlyPreCommitsVerified implies(amev() && hasAllTx(), self.preBlock != nil || forall(i, 0, NN(), !curP(i)))
 //@   modifies Context.PreparationPayloads, Context.CommitPayloads, Context.PreCommitPayloads, Context.header, Context.preHeader, Context.preBlock
 //@ func (*DBFT).verifyPreCommitPayloadsAgainstPreBlock
 //@   requires wf() && slot()
-//@   loop 1: invariant wf() && slot()
+//@   requires implies(self.preBlock != nil, forall(i, 0, NN(), implies(curP(i), verP(i)))) || true
+//@   loop 1: invariant wf() && slot() && unchanged(self.PreparationPayloads, self.TransactionHashes, self.Transactions, self.ViewNumber, self.PrimaryIndex)
+//@   loop 1: invariant implies(self.preBlock != nil, forall(j, 0, idx, implies(curP(j), verP(j)))) && implies(self.preBlock == nil, !canMakePreBlock() || forall(j, 0, idx, !curP(j)))
+//@   loop 1: invariant implies(old(self.preBlock) != nil, self.preBlock == old(self.preBlock))
 //@   ensures wf() && slot()
+//@   ensures [C02,C07] @verp implies(hasAllTx(), verp())
 //@   modifies Context.PreCommitPayloads, Context.preHeader, Context.preBlock
 //@ func (*DBFT).verifyCommitPayloadsAgainstHeader
 //@   requires wf() && slot()
-//@   loop 1: invariant wf() && slot()
+//@   loop 1: invariant wf() && slot() && unchanged(self.PreparationPayloads, self.ViewNumber, self.PrimaryIndex, self.preBlockProcessed)
+//@   loop 1: invariant implies(self.header != nil, forall(j, 0, idx, implies(curC(j), verC(j)))) && implies(self.header == nil, !canMakeHeader() || forall(j, 0, idx, !curC(j)))
+//@   loop 1: invariant implies(old(self.header) != nil, self.header == old(self.header))
 //@   ensures wf() && slot()
+//@   ensures [C02,C01] @verc verc()
 //@   modifies Context.CommitPayloads, Context.header
 //@ func (*DBFT).changeTimer
 //@   requires wf()
@@ -519,6 +647,7 @@ package dbft
 //@ func (*cache).getHeight
 //@   requires cacheOK()
 //@   ensures cacheOK() && (result == nil || inboxOK(result))
+//@   ensures implies(!old(has(self.cache.mail, h)), result == nil)
 //@   modifies cache.mail
 //@ func (*cache).addMessage
 //@   requires cacheOK() && m != nil
